@@ -62,6 +62,7 @@ func checkC02(r *Run) {
 	r.Rule("C02.R1.meta", "meta.json is never opened with a write/create/truncate flag and is only the destination of Rename(meta.json.tmp, meta.json); in meta.Create that rename runs only after EncodeStream and Close of the temp file succeeded", 4)
 	r.Rule("C02.R2.order", "in the closure returned by indexPersist.prepare, Truncate precedes WriteAt on every path, both with the persist mutex held; the truncate length and the written bytes come from the same pointer snapshot; index.domain is opened only in openPointerPersist", 4)
 	r.Rule("C02.R2.start", "every call of indexPersist.prepare starts the rewrite at the index's lowest dirty position (idx.persistHead) or at 0: commits with a lazy persist interval leave lower positions dirty on disk, so rewriting only a tail leaves a stale prefix next to it", 5)
+	r.Rule("C02.R2.inorder", "the closure returned by indexPersist.prepare is invoked while idx.mu - under which the snapshot was taken - is still held: snapshots then reach index.domain in the order of the mutations they reflect (an older snapshot written after a newer one drops a committed domain)", 5)
 	r.Rule("C02.R2.codec", "pointerCodec.encode and decode lay the five pointer fields out at the same byte ranges, the ranges tile [0, pointerByteSize) exactly", 3)
 	r.Rule("C02.R3.provenance", "composite literals of domain.pointer occur only in Writer.commit, DB.Delete and pointerCodec.decode; in commit offset/size come from the tracked writer's Offset()/Len(); in Delete from fields of existing pointers and the clamped offsets", 5)
 	r.Rule("C02.R4.delete", "channel deletion: removeChannel, then Rename(dir, dir+'-DELETE-'+n) under DB.mu, then Remove of exactly that renamed name; crash-intermediate names are not accepted by the open-time scanners", 6)
@@ -134,6 +135,7 @@ func checkC02(r *Run) {
 	checkMetaCreate(r, p, metaName)
 	checkPrepare(r, p, la)
 	checkPrepareStart(r, p)
+	checkPersistInOrder(r, p, la)
 	checkPointerCodec(r, p)
 	checkPointerProvenance(r, p)
 	checkChannelDelete(r, p, la)
@@ -1115,5 +1117,56 @@ func checkScanTolerance(r *Run, p *Prog) {
 		}
 		r.Ob("C02.R7.scan", fmt.Sprintf("Stat #%d in scanUnopenedFiles is reached only for files that exist", i+1), p.Position(st.Pos()), guarded || hasFilter,
 			"newWriter persists the bumped file counter before it creates the file; after a crash between the two a key <= counter has no file, and an unguarded Stat error makes every later Open of the channel fail")
+	}
+}
+
+// checkPersistInOrder decides C02.R2.inorder.
+func checkPersistInOrder(r *Run, p *Prog, la *LockAnalysis) {
+	prepare := p.Func(domainPkg, "indexPersist", "prepare")
+	if prepare == nil {
+		r.Undecide("C02.R2.inorder: indexPersist.prepare not found")
+		return
+	}
+	const cls = "cesium/internal/domain.index.mu"
+	n := 0
+	for _, cs := range p.AllCalls(func(o types.Object, _ *ast.CallExpr) bool { return IsFunc(o, prepare) }) {
+		fn := cs.Fn
+		// the invocation: prepare(..)() directly, or a call of the variable bound to prepare(..)
+		var invocations []*ast.CallExpr
+		var bound types.Object
+		inspectNoLit(fn.Body, func(x ast.Node) bool {
+			switch v := x.(type) {
+			case *ast.CallExpr:
+				if inner, ok := ast.Unparen(v.Fun).(*ast.CallExpr); ok && inner == cs.Call {
+					invocations = append(invocations, v)
+				}
+			case *ast.AssignStmt:
+				if len(v.Rhs) == 1 && ast.Unparen(v.Rhs[0]) == ast.Expr(cs.Call) && len(v.Lhs) == 1 {
+					bound = objOf(fn, v.Lhs[0])
+				}
+			}
+			return true
+		})
+		if bound != nil {
+			inspectNoLit(fn.Body, func(x ast.Node) bool {
+				if call, ok := x.(*ast.CallExpr); ok && objOf(fn, call.Fun) == bound {
+					invocations = append(invocations, call)
+				}
+				return true
+			})
+		}
+		if len(invocations) == 0 {
+			r.Ob("C02.R2.inorder", "persist prepared in "+fn.Top().Name+" is invoked in the same function", p.Position(cs.Call.Pos()), false, "the closure escapes: its invocation cannot be ordered against other persists")
+			continue
+		}
+		for i, inv := range invocations {
+			n++
+			held := la.HeldAt(inv, cls, ModeR)
+			r.Ob("C02.R2.inorder", fmt.Sprintf("persist #%d prepared in %s runs under idx.mu", i+1, fn.Top().Name), p.Position(inv.Pos()), held,
+				"the snapshot is written after idx.mu was released: a commit that runs in between persists a newer snapshot first and this older one then overwrites it")
+		}
+	}
+	if n < 5 {
+		r.Undecide("C02.R2.inorder: only %d persist invocations found (expected 5)", n)
 	}
 }
